@@ -121,7 +121,7 @@ def sim_cases(draw):
         acts.append({'t': t, 'op': 'close'})
     return {'kind': kind, 'T': T, 'actions': acts, 'use_poll': draw(st.booleans()),
             'size': size,
-            'style': draw(st.sampled_from(['rnb', 'rnb', 'expect_eof', 'read'])),
+            'style': draw(st.sampled_from(['rnb', 'rnb', 'expect_eof', 'read', 'expect_poll'])),
             'sock_timeout': draw(st.sampled_from([None, 0.0, 2.5])),
             'eintr': draw(st.integers(0, 5)) == 0,
             # unicode mode: the peer's writes (and the reads) cut the UTF-8 stream at arbitrary bytes
@@ -192,6 +192,19 @@ def check_sim(case, col=None):
                                                 % (sim.sock_proxy.gettimeout(), case['sock_timeout']))
                         else:
                             raise Violation('runaway', 'reader loop did not reach EOF in %d reads' % (total + 1000))
+                    elif style == 'expect_poll':
+                        # a polling reader: expect([TIMEOUT, EOF], timeout=0) until EOF, a short sleep after every poll
+                        # that found the stream still open; a TIMEOUT consumes nothing, so `before` at EOF is everything
+                        import pexpect.pty_spawn as _ps
+                        for _ in range(total + 20000):
+                            i = sp.expect([TIMEOUT, EOF], timeout=0)
+                            if i == 1:
+                                got = sp.before
+                                eof_seen = True
+                                break
+                            _ps.time.sleep(T / 40.0)
+                        else:
+                            raise Violation('runaway', 'polling reader did not reach EOF in 20000 polls')
                     elif style == 'expect_eof':
                         try:
                             sp.expect(EOF, timeout=None)
